@@ -372,7 +372,7 @@ pub fn run(ctx: &Ctx) {
     ctx.assume("prefixed signed messages are assembled by the harness' own packet framer (signature packet followed by a literal packet)");
     let cheap = zoo::CHEAP_SIGNERS;
     zoo::warm(cheap);
-    let l = ctx.tier.pick(6u32, 8);
+    let l = ctx.tier.pick(7u32, 8);
     ctx.group("exhaustive-3sym-data", Source::Indexed { count: count_strings(l) }, |t, rec| {
         let idx = t.u64();
         let s = nth_string(idx);
@@ -387,19 +387,20 @@ pub fn run(ctx: &Ctx) {
         let mut t2 = Tape::new(&sub);
         cleartext_case(&mut t2, rec, String::from_utf8(s).unwrap(), cheap)
     });
-    let n = ctx.tier.pick(1500u64, 30000);
+    let n = ctx.tier.pick(4000u64, 60000);
     ctx.group("random-sigma-data", Source::Random { n, tape_len: 400 }, |t, rec| {
-        let payload = if t.chance(50) {
+        let payload = if t.chance(90) {
             // long, with line-ending material on buffer edges
-            let edge = *t.pick(&[512usize, 1024, 8192, 16384]);
-            let total = edge + t.range(0, 600);
+            let edge = *t.pick(&[512usize, 1024, 1536, 8192, 16384]);
+            // mostly exactly on / next to the internal buffer edge, sometimes anywhere behind it
+            let total = if t.chance(180) { edge + t.range(0, 4) - 2 } else { edge + t.range(0, 600) };
             let mut s = vec![b'q'; total];
             for k in 0..t.range(1, 6) {
                 let p = (edge + k).saturating_sub(t.range(0, 4)).min(total - 1);
                 s[p] = *t.pick(&[b'\r', b'\n', b' ', b'\t']);
             }
-            if t.bool() {
-                *s.last_mut().unwrap() = *t.pick(&[b'\r', b'\n', b' ']);
+            if t.chance(180) {
+                *s.last_mut().unwrap() = *t.pick(&[b'\r', b'\n', b' ', b'\t']);
             }
             s
         } else {
